@@ -34,7 +34,7 @@ RULE = ('cases: seeded descriptions with 0-4 systems (arbitrary priorities, freq
         'description signature.')
 ASSUMPTIONS = ['fixtures record what they are handed; the model-level hooks are not handed the model (documented) and are checked through the '
                'most recently created model', 'descriptions are well-formed (unique system ids)']
-FLOORS = {'quick': {'decodes_with_same_named_decoys_in_the_running_script': 2918, 'cases_in_mode_warnings': 156, 'nested_decodes_that_failed_and_were_caught_by_the_hook': 283, 'retries_of_the_same_description_after_a_failed_decode': 750, 'decodes_failing_half_way': 750, 'same_dict_object_decoded_again': 207, 'decodes': 2000, 'events_compared': 15000, 'json_decodes': 800, 'dict_decodes': 800, 'repeat_decodes': 300,
+FLOORS = {'quick': {'first_timesteps_with_equal_priority_systems': 233, 'first_timesteps_of_decoded_models': 2167, 'decodes_with_same_named_decoys_in_the_running_script': 2918, 'cases_in_mode_warnings': 156, 'nested_decodes_that_failed_and_were_caught_by_the_hook': 283, 'retries_of_the_same_description_after_a_failed_decode': 750, 'decodes_failing_half_way': 750, 'same_dict_object_decoded_again': 207, 'decodes': 2000, 'events_compared': 15000, 'json_decodes': 800, 'dict_decodes': 800, 'repeat_decodes': 300,
                     'groups_of_size_zero': 200, 'descriptions_without_systems': 100, 'descriptions_without_agents': 100,
                     'hooks_run': 5000, 'agents_created': 3000, 'complete_models': 300, 'spatial_model_decodes': 300, 'big_agent_groups': 2, 'big_descriptions': 2, 'two_module_descriptions': 200, 'nested_decodes_during_decode': 200, 'late_bound_system_classes': 200,
                     'environment_replaced_by_hook': 100, 'reach:Decode.Decoder.decode': 2000, 'reach:Decode.JsonDecoder.open_file': 800},
@@ -240,6 +240,21 @@ def decode_and_check(ctx, decoder, arg, d, how, inner=None, inner_fail=None):
         ctx.count('spatial_model_decodes')
         lost = [a.id for a in model.environment if envs.PositionComponent not in a.components]
         check(not lost, f'{len(lost)} agents were not added through the environment\'s own add_agent (no position in a grid world)', first=lost[:5], **detail)
+    if model.is_running() and model.systems.timestep == 0:
+        # the listed systems were registered one after the other, in listing order: the first timestep of the decoded model runs those that
+        # are due in descending declared priority, listing order among equals
+        from vlib.fixtures.decodables_state import EXECUTED
+        due = [(-(s_['params'].get('priority', 0)), j_, s_['params']['id']) for j_, s_ in enumerate(d['systems'])
+               if s_['params'].get('start', 0) <= 0 <= s_['params'].get('end', sys.maxsize) and (0 - s_['params'].get('start', 0)) % s_['params'].get('frequency', 1) == 0]
+        del EXECUTED[:]
+        model.execute()
+        ran = [x_ for x_ in EXECUTED if x_ in want_sys]
+        del EXECUTED[:]
+        ctx.count('first_timesteps_of_decoded_models')
+        if len({p_ for p_, _, _ in due}) < len(due):
+            ctx.count('first_timesteps_with_equal_priority_systems')
+        check(ran == [sid_ for _, _, sid_ in sorted(due)], f'first timestep of the decoded model ran {ran}, the description lists (descending priority, listing '
+              f'order among equals) {[sid_ for _, _, sid_ in sorted(due)]}', **detail)
     return model
 
 
